@@ -364,6 +364,52 @@ def hostnames_agreement_rule(ctx, rule):
                                 written.append(v)
     if not written:
         raise AnalysisError('add_many: the insert into the hostnames table was not recognised')
+    # only start URLs feed the column: the filter of a resumed run is built from the whole table, so a host that was merely
+    # queued (an off-host page allowed by --span-hosts-allow) must not become a start host
+    def chain_ifs(e, depth=0, out=None):
+        out = [] if out is None else out
+        if depth > 5:
+            return out
+        if isinstance(e, (ast.GeneratorExp, ast.ListComp, ast.SetComp)):
+            for g in e.generators:
+                out.extend(g.ifs)
+                chain_ifs(g.iter, depth + 1, out)
+        elif isinstance(e, ast.Name):
+            ds = defs.get(e.id, [])
+            if len(ds) == 1 and ds[0][0] is not None and ds[0][1] == 'assign':
+                chain_ifs(ds[0][0], depth + 1, out)
+        elif isinstance(e, ast.Call) and len(e.args) == 1:
+            chain_ifs(e.args[0], depth + 1, out)
+        return out
+    param = am.params[1] if len(am.params) > 1 else None
+
+    def root_selector(name):
+        # NAME = frozenset(u for u, props, data in <param> if <test on parent_url / level / not props>)
+        ds = defs.get(name, [])
+        if len(ds) != 1 or ds[0][0] is None:
+            return False
+        if isinstance(ds[0][0], ast.Name) and ds[0][0].id != name:
+            return root_selector(ds[0][0].id)
+        for comp in ast.walk(ds[0][0]):
+            if isinstance(comp, (ast.GeneratorExp, ast.ListComp, ast.SetComp)):
+                over_param = any(isinstance(x, ast.Name) and x.id == param for g in comp.generators for x in ast.walk(g.iter))
+                tests = [t for g in comp.generators for t in g.ifs]
+                if over_param and any(isinstance(x, ast.Attribute) and x.attr in ('parent_url', 'level') for t in tests for x in ast.walk(t)):
+                    return True
+        return False
+    restricted = False
+    for c in U.calls(am.node):
+        if U.attr_name(c) == 'execute' and len(c.args) == 2 and any(isinstance(x, ast.Name) and x.id == 'Hostname' for x in ast.walk(c.args[0])):
+            for t in chain_ifs(c.args[1]):
+                if isinstance(t, ast.Compare) and len(t.ops) == 1 and isinstance(t.ops[0], ast.In) and isinstance(t.comparators[0], ast.Name) \
+                        and root_selector(t.comparators[0].id):
+                    restricted = True
+                if any(isinstance(x, ast.Attribute) and x.attr in ('parent_url', 'level') for x in ast.walk(t)):
+                    restricted = True
+    if rule.startswith('C02'):
+      ck.expect(restricted, rule, am.qual, 'host names are stored for start URLs only (rows added without a parent)',
+                'the host of every queued URL is stored and the span-hosts filter of a resumed run is built from all stored hosts: an off-host '
+                'page that was merely allowed (--span-hosts-allow) turns its whole host into a start host once the crawl is interrupted and run again', am.loc())
     wattrs = set()
     for w in written:
         if isinstance(w, ast.Attribute) and isinstance(w.value, ast.Call) and (dotted(w.value.func) or '').split('.')[-1] in ('parse', 'parse_url_or_log') \
